@@ -2,17 +2,14 @@
     vm_compute in proofs/ServiceProofs.v), and the witnesses showing that the
     hypotheses of the theorems of C18.v are needed. *)
 From Verif Require Import Json Outcome Service CorrService ServiceSpec ServiceProofs.
-(** D24: POST /api/loc/facts/add?location=here&fact=... with an empty body:
-    GetHTTPRequest reads js[0] of a zero-length body - a panic, not a 400. *)
-Definition empty_body_panics_refuted := empty_body_panics_counterexample.
-(** D25: a JSON body whose "uri" member is not a string ({"fact":...,"uri":5})
-    panics in ServeHTTP (m["uri"].(string)); likewise an element {"uri":5} of a
-    batch (u.(string) in ProcessRequest).  The envelopes check it (400). *)
-Definition nonstring_uri_panics_refuted := nonstring_uri_panics_counterexample.
+(** D24 (repaired): an empty body is a 400. *)
+Definition empty_body_repaired := empty_body_is_400.
+(** D25 (repaired): a uri member that is not a string is a 400 (an error
+    element inside a batch). *)
+Definition nonstring_uri_repaired := nonstring_uri_is_error.
 Definition envelope_nonstring_uri_checked := envelope_nonstring_uri_is_400.
-(** D61: GET /api/loc/facts/add?location=here&fact= : Unmarshal reads bs[0] of
-    the empty text of a json-typed parameter - a panic, not a 400. *)
-Definition empty_typed_param_panics_refuted := empty_typed_param_panics_counterexample.
+(** D61 (repaired): an empty text of a json-typed parameter is a 400. *)
+Definition empty_typed_param_repaired := empty_typed_param_is_400.
 (** D62: /api/loc/facts/take and /replace throw the results of their inner
     requests away: missing parameters and failing operations report success. *)
 Definition composite_swallows_errors_refuted := composite_swallows_errors_counterexample.
